@@ -415,7 +415,8 @@ static void fixed_case(long idx) {
         do { if (base.size() <= 5 || g_thorough || k % 24 == 0) { VList v; for (auto i : perm) v.push_back(base[i]); emit_prune(v, base[0].size()); }
              ++k; } while (std::next_permutation(perm.begin(), perm.end()));
         break; }
-    case 22: { // lp_solve precision: (3/4,-3/4) lies 1.67e-7 BELOW the envelope of the two others everywhere, yet findWitness reports delta > 0
+    case 22: { // regression input for `skip within_tolerance`: (3/4,-3/4) lies 1.67e-7 below the envelope of the two others everywhere, findWitness
+               // accepts it on lp_solve noise and Pruner keeps it: a near-tie inside the documented tolerance, not an exact tie
         const Vector k0 = vec({std::ldexp(3377706475927313.0, -52), std::ldexp(-6755421959053881.0, -53)});   // (0.7500015, -0.7500025)
         VList v{vec({0.75, -0.75}), k0, vec({0, 0.75})};
         emit_prune(v, 2);
